@@ -397,11 +397,11 @@ class Flat:
         if op == 'fptosi': return '%s = (%s)(s%d)%s;' % (r, s.cty(d['rty']), s.res(d['rty']).a, V(d['t'], d['a']))
         if op == 'load':
             a = V(d['pt'], d['a'])
-            if d['atomic']: return s.yieldpt() + '%s = %s; /* atomic %s */' % (r, s.load(d['t'], a), d['order'])
+            if d['atomic']: return s.yieldpt() + 'IR_ALOAD_PRE(%s, %d); %s = %s; IR_ALOAD_DONE(%s, %s, %d); /* atomic %s */' % (a, {'monotonic': 0, 'acquire': 2, 'seq_cst': 5, 'unordered': 0}[d['order']], r, s.load(d['t'], a), a, r, {'monotonic': 0, 'acquire': 2, 'seq_cst': 5, 'unordered': 0}[d['order']], d['order'])
             return '%s = %s;' % (r, s.load(d['t'], a))
         if op == 'store':
             a = V(d['pt'], d['a']); v = V(d['t'], d['v'])
-            if d['atomic']: return s.yieldpt() + '%s /* atomic %s */' % (s.store(d['t'], a, v), d['order'])
+            if d['atomic']: return s.yieldpt() + 'IR_ASTORE_PRE(%s, %d); %s IR_ASTORE_DONE(%s, %s, %d); /* atomic %s */' % (a, {'monotonic': 0, 'release': 3, 'seq_cst': 5, 'unordered': 0}[d['order']], s.store(d['t'], a, v), a, v, {'monotonic': 0, 'release': 3, 'seq_cst': 5, 'unordered': 0}[d['order']], d['order'])
             return s.store(d['t'], a, v)
         if op == 'getelementptr': return '%s = %s;' % (r, s.gep(d['bt'], V(d['pt'], d['base']), d['idx'], V))
         if op == 'alloca':
@@ -427,12 +427,14 @@ class Flat:
             a = V(d['pt'], d['a']); v = V(d['t'], d['v']); o = d['rmw']
             expr = {'add': '%s + %s', 'sub': '%s - %s', 'and': '%s & %s', 'or': '%s | %s', 'xor': '%s ^ %s', 'xchg': '(void)%s, %s'}[o] % (r, v)
             if o == 'xchg': expr = v
-            return s.yieldpt() + '%s = %s; %s /* atomicrmw %s %s */' % (r, s.load(d['t'], a), s.store(d['t'], a, '(%s)(%s)' % (s.cty(d['t']), expr)), o, d['order'])
+            ordn = {'monotonic': 0, 'acquire': 2, 'release': 3, 'acq_rel': 4, 'seq_cst': 5}[d['order']]
+            return s.yieldpt() + 'IR_RMW_PRE(%s, %d); %s = %s; %s IR_RMW_DONE(%s, %s, %d); /* atomicrmw %s %s */' % (a, ordn, r, s.load(d['t'], a), s.store(d['t'], a, '(%s)(%s)' % (s.cty(d['t']), expr)), a, r, ordn, o, d['order'])
         if op == 'cmpxchg':
             a = V(d['pt'], d['a'])
-            return s.yieldpt() + '%s.f0 = %s; if (%s.f0 == %s && !IR_SPURIOUS(%d)) { %s %s.f1 = 1; } else %s.f1 = 0; /* cmpxchg %s %s */' % (
-                r, s.load(d['t'], a), r, V(d['t'], d['e']), 1 if d['weak'] else 0, s.store(d['t'], a, V(d['t'], d['n'])), r, r, d['so'], d['fo'])
-        if op == 'fence': return '/* fence %s */;' % d['order']
+            om = {'monotonic': 0, 'acquire': 2, 'release': 3, 'acq_rel': 4, 'seq_cst': 5}
+            return s.yieldpt() + 'IR_CAS_PRE(%s, %d); %s.f0 = %s; if (%s.f0 == %s && !IR_SPURIOUS(%d)) { %s %s.f1 = 1; IR_CAS_OK(%s, %s.f0, %s, %d); } else { %s.f1 = 0; IR_CAS_FAIL(%s, %s.f0, %d); } /* cmpxchg %s %s */' % (
+                a, om[d['so']], r, s.load(d['t'], a), r, V(d['t'], d['e']), 1 if d['weak'] else 0, s.store(d['t'], a, V(d['t'], d['n'])), r, a, r, V(d['t'], d['n']), om[d['so']], r, a, r, om[d['fo']], d['so'], d['fo'])
+        if op == 'fence': return 'IR_FENCE(%d); /* fence %s */' % ({'acquire': 2, 'release': 3, 'acq_rel': 4, 'seq_cst': 5}[d['order']], d['order'])
         if op == 'extractvalue':
             e = V(d['t'], d['a']); t = d['t']
             for i in d['idx']:
